@@ -3,7 +3,7 @@
    Non-vacuity Examples: FileProofsRet.v , names starting with ex_state and ex_snap. *)
 From Coq Require Import List ZArith NArith Bool.
 From BLB Require Import C07.FileFS C07.FileModel C07.FileProofsState C07.FileProofsSnapA C07.FileProofsSnapB
-     C07.FileProofsSnapC C07.FileProofsRet C07.FileProofsState2.
+     C07.FileProofsSnapC C07.FileProofsRet C07.FileProofsState2 C07.FileProofsSnapD C07.FileProofsSort.
 Import ListNotations.
 
 (* [FULL] every state reachable under the crash quantifier of the property (all mutations before the crash point applied, the write in flight cut anywhere) is a power loss state (crash_cache) of some prefix of the trace, so theorems over crash_cache are the strong form *)
@@ -90,3 +90,45 @@ Theorem snapshot_retention :
        (In (m, x) (dir s') <-> In (m, x) d /\ ~ In m (firstn (length (finals d) - R) (finals d)))).
 Proof. exact snapshot_retention_lemma. Qed.
 Print Assumptions snapshot_retention.
+
+(* [FULL] closure under repeated crashes for the snapshot directory. GInv2 is the invariant of the snapshot directory together with the ghost record of started commits C and acknowledged snapshots A, it holds for the empty directory (ginv2_0). From any state satisfying it, after any completed operations ops1, for any operation o in flight, any crash point r and any power loss state c, the manager restarted on c (nothing cached, no writer, all of c durable) again satisfies GInv2 with the same ghost record, and with the snapshot committed by o counted as acknowledged once o had returned *)
+Theorem snapshot_recovery_closed :
+  forall g ops1 o r c,
+    GInv2 g ->
+    let g1 := grun g ops1 in
+    crash_cache (run (firstn r (op_trace (g_p g1) o)) (ps_fs (g_p g1))) c ->
+    exists nx, GInv2 (restarted c nx (g_C (gstep g1 o)) (g_A g1)) /\
+               (length (op_trace (g_p g1) o) <= r -> GInv2 (restarted c nx (g_C (gstep g1 o)) (g_A (gstep g1 o)))).
+Proof. exact snapshot_recovery_closed_lemma. Qed.
+Print Assumptions snapshot_recovery_closed.
+
+(* [FULL] snapshot visibility from ANY state satisfying GInv2, in particular from a manager restarted on a crash state (snapshot_recovery_closed), hence for executions with any number of crashes. Same three conclusions as snapshot_visible_iff_complete *)
+Theorem snapshot_visible_after_any_crashes :
+  forall g ops1 o r c,
+    GInv2 g ->
+    let g1 := grun g ops1 in
+    let C := g_C (gstep g1 o) in
+    crash_cache (run (firstn r (op_trace (g_p g1) o)) (ps_fs (g_p g1))) c ->
+    (forall t i x, In (NSnap t i, x) (c_dir c) ->
+       exists sid nch, In (t, i, content_of t i sid nch) C /\ c_data c x = content_of t i sid nch) /\
+    (forall A, A = g_A g1 \/ (length (op_trace (g_p g1) o) <= r /\ A = g_A (gstep g1 o)) ->
+     match open_mgr (c_dir c) (c_data c) with
+     | MFatal => False
+     | MNone => (forall m x, is_fin m = true -> ~ In (m, x) (c_dir c)) /\ A = []
+     | MSome t i sid nch =>
+         (exists x sid0 nch0, lookup (NSnap t i) (c_dir c) = Some x /\ c_data c x = content_of t i sid0 nch0 /\
+                              In (t, i, content_of t i sid0 nch0) C /\ (sid, nch) = visible_of sid0 nch0) /\
+         (forall m x, is_fin m = true -> In (m, x) (c_dir c) -> key_leb (key m) (t, i) = true) /\
+         (forall a, In a A -> key_leb a (t, i) = true)
+     end).
+Proof. exact snapshot_visible_from_lemma. Qed.
+Print Assumptions snapshot_visible_after_any_crashes.
+
+(* [FULL] retention in list form. For every directory with distinct names and every listing order, after cleanupSnapshots the sorted list of snapshot names is the old sorted list without its first (n minus snapRetention) elements, and no temporary snapshot name is left *)
+Theorem snapshot_sorted_retention :
+  forall s oracle,
+    NoDup (map fst (dir s)) ->
+    let s' := run (cleanup_muts (dir s) oracle) s in
+    finals (dir s') = skipn (length (finals (dir s)) - R) (finals (dir s)) /\ temps (dir s') = [].
+Proof. exact snapshot_sorted_retention_lemma. Qed.
+Print Assumptions snapshot_sorted_retention.
